@@ -325,6 +325,32 @@ theorem insertRows_refused (slack : Nat → Nat) (s : Pkg) (hI : Inv slack s) (t
     (h : (insertRows s tn R).2 ≠ .ok ()) : (insertRows s tn R).1 = { s with finisher := true } :=
   insert_refused_noop slack _ tn R (inv_finisher slack s hI) h
 
+/-- the room check passed for a registered catalog table: its rows and the new ones fit -/
+theorem room_fits (s : Pkg) (catalog key name : List Char) (n : Nat) (t : Table)
+    (hf : s.findTable catalog = some t) (h : catalogRoomOne s catalog key name n = .ok ()) :
+    (tableView s t).length + n ≤ Gen.maxTableRows := by
+  unfold catalogRoomOne at h
+  rw [hf] at h
+  simp only at h
+  unfold tableView rowsOf
+  cases hl : s.loadRows t with
+  | err k => rw [hl] at h; cases h
+  | panic w => rw [hl] at h; cases h
+  | ok rows =>
+    rw [hl] at h
+    simp only at h
+    by_cases hgt : rows.length + n > Gen.maxTableRows
+    · rw [if_pos hgt] at h; cases h
+    · simp only [List.length_map]; omega
+
+theorem room_columns (s : Pkg) (name : List Char) (cols : List Column) (h : catalogRoom s name cols = .ok ()) :
+    catalogRoomOne s Gen.nameColumns.toList "Table".toList name cols.length = .ok () := by
+  unfold catalogRoom at h
+  cases h1 : catalogRoomOne s Gen.nameColumns.toList "Table".toList name cols.length with
+  | ok u => cases u; rfl
+  | err k => rw [h1] at h; cases h
+  | panic w => rw [h1] at h; cases h
+
 /-- **`create_table` is atomic**: with the full package invariant, once the up-front checks pass
 the call either succeeds, or hits the capacity panic, or is refused by the first catalog insert
 (the row bound of `_Columns`) having changed nothing but the pending-finisher flag -/
@@ -332,8 +358,7 @@ theorem createTable_atomic (slack : Nat → Nat) (s : Pkg) (tabs : List Table) (
     (hN : NoOrphans s) (hV : MsiProofs.ValidCells.ValidAll s) (name : List Char) (cols : List Column)
     (hce : createError s name cols = none) :
     (createTable s name cols).2 = .ok () ∨ (∃ w, (createTable s name cols).2 = .panic w) ∨
-    ((∃ k, (createTable s name cols).2 = .err k) ∧
-      ((createTable s name cols).1 = s ∨ (createTable s name cols).1 = { s with finisher := true })) := by
+    ((∃ k, (createTable s name cols).2 = .err k) ∧ (createTable s name cols).1 = s) := by
   have hC := hF.core
   have hf := createError_facts s name cols hce
   obtain ⟨hv1, hv2, hv3⟩ := createError_valid s name cols hce
@@ -358,7 +383,7 @@ theorem createTable_atomic (slack : Nat → Nat) (s : Pkg) (tabs : List Table) (
   simp only [hce]
   -- the room check: refused there, nothing at all has changed
   cases hroom : catalogRoom s name cols with
-  | err k => exact Or.inr (Or.inr ⟨⟨k, rfl⟩, Or.inl rfl⟩)
+  | err k => exact Or.inr (Or.inr ⟨⟨k, rfl⟩, rfl⟩)
   | panic w => exact Or.inr (Or.inl ⟨w, rfl⟩)
   | ok u =>
   cases u
@@ -378,17 +403,12 @@ theorem createTable_atomic (slack : Nat → Nat) (s : Pkg) (tabs : List Table) (
   rw [hrw1] at g1
   by_cases hfull : (tableView s (Catalog.columnsTable s.pool.longRefs)).length + (catalogRowsColumns name cols).length >
       Gen.maxTableRows
-  · -- refused by the row bound of `_Columns`: nothing has changed
-    simp only [hfull, if_true] at g1
-    right; right
-    have hne : (insertRows s Gen.nameColumns.toList (catalogRowsColumns name cols)).2 ≠ .ok () := by
-      rw [g1]; exact fun e => by cases e
-    have hst := insertRows_refused slack s hC.inv _ _ hne
-    generalize hr1 : insertRows s Gen.nameColumns.toList (catalogRowsColumns name cols) = r1 at g1 hst
-    obtain ⟨s1, res1⟩ := r1
-    simp only at g1 hst
-    subst g1
-    exact ⟨⟨_, rfl⟩, Or.inr hst⟩
+  · -- impossible: the room check has just established that the rows fit
+    exfalso
+    have := room_fits s Gen.nameColumns.toList "Table".toList name cols.length _ hXc (room_columns s name cols hroom)
+    have hlenC' : (catalogRowsColumns name cols).length = cols.length := by unfold catalogRowsColumns; simp
+    rw [hlenC'] at hfull
+    omega
   simp only [hfull, if_false] at g1
   generalize hr1 : insertRows s Gen.nameColumns.toList (catalogRowsColumns name cols) = r1 at g1
   obtain ⟨s1, res1⟩ := r1
